@@ -13,7 +13,7 @@ def conds(tier):
     enc = ['tskit.trees.TreeSequence.sample_count_stat']
     return [
         dict(module='c08_props', function='indicator_weights', timeout=120, encodes=enc,
-             what='W[i][k] = 1 iff the i-th sample is in set k, for 3 samples with free ids in [0,4] and two sets; options passed through'),
+             what='W[i][k] = 1 iff the i-th sample is in set k, for 3 samples whose node ids are not 0..n-1 and every membership pattern of two sets; options passed through'),
         dict(module='c08_props', function='non_samples_and_duplicates_rejected', timeout=120,
              what='repeated elements / non-sample nodes in a sample set raise ValueError'),
     ]
